@@ -1,12 +1,12 @@
 // replay for property C01
 // refuted obligation (Kani harness): algorithm::kalman::verif::c01_p_check_offset_steer_contract  [/verif/kani/ntp_proto/algorithm/kalman/mod.rs]
-// failed checks: assertion failed: spec_within(&sc.startup_step_panic_threshold, x) @ /verif/kani/ntp_proto/algorithm/kalman/mod.rs:178; assertion failed: spec_within(&sc.single_step_panic_threshold, x) @ /verif/kani/ntp_proto/algorithm/kalman/mod.rs:181; assertion failed: raw(c.timedata.accumulated_steps) == before_acc.saturating_add(abs) @ /verif/kani/ntp_proto/algorithm/kalman/mod.rs:183
+// failed checks: assertion failed: spec_within(&sc.single_step_panic_threshold, x) @ /verif/kani/ntp_proto/algorithm/kalman/mod.rs:183
 // re-run natively against the real code:  /verif/check C01 --replay /verif/replays/C01-c01_p_check_offset_steer_contract.rs
 //meta {"property": "C01", "crate_dir": "ntp-proto", "harness": "algorithm::kalman::verif::c01_p_check_offset_steer_contract", "harness_file": "/verif/kani/ntp_proto/algorithm/kalman/mod.rs", "features": [], "transform": true, "c_ffi": false}
-// native replay: reproduced
+// native replay: not-run
 /// Test generated for harness `algorithm::kalman::verif::c01_p_check_offset_steer_contract` 
 ///
-/// Check for `assertion`: "assertion failed: spec_within(&sc.startup_step_panic_threshold, x)"
+/// Check for `assertion`: "assertion failed: spec_within(&sc.single_step_panic_threshold, x)"
 ///
 /// # Warning
 ///
@@ -20,48 +20,38 @@
 /// logic.
 
 #[test]
-fn kani_concrete_playback_c01_p_check_offset_steer_contract_16126345006959093442() {
+fn kani_concrete_playback_c01_p_check_offset_steer_contract_6737306818882209016() {
     let concrete_vals: Vec<Vec<u8>> = vec![
         // 18446744073709551615ul
         vec![255, 255, 255, 255, 255, 255, 255, 255],
+        // 0
+        vec![0],
         // 1
         vec![1],
-        // 9223372036854775807
-        vec![255, 255, 255, 255, 255, 255, 255, 127],
-        // 1
-        vec![1],
-        // 9223372036854775807
-        vec![255, 255, 255, 255, 255, 255, 255, 127],
-        // 1
-        vec![1],
-        // 9223372036854775807
-        vec![255, 255, 255, 255, 255, 255, 255, 127],
-        // 1
-        vec![1],
-        // 9223372036854775807
-        vec![255, 255, 255, 255, 255, 255, 255, 127],
-        // 1
-        vec![1],
-        // 9223372036854775806
-        vec![254, 255, 255, 255, 255, 255, 255, 127],
+        // 0
+        vec![0, 0, 0, 0, 0, 0, 0, 0],
+        // 0
+        vec![0],
+        // 0
+        vec![0],
+        // 0
+        vec![0],
         // 255
         vec![255],
         // 1
         vec![1],
-        // 9223372036854775807
-        vec![255, 255, 255, 255, 255, 255, 255, 127],
+        // 4611686018427387902
+        vec![254, 255, 255, 255, 255, 255, 255, 63],
         // -1
         vec![255, 255, 255, 255, 255, 255, 255, 255],
         // -NaN
         vec![255, 255, 255, 255, 255, 255, 255, 255],
         // -NaN
         vec![255, 255, 255, 255, 255, 255, 255, 255],
-        // 1
-        vec![1],
+        // 0
+        vec![0],
         // -1.797693e+308
         vec![255, 255, 255, 255, 255, 255, 239, 255],
-        // -1
-        vec![255, 255, 255, 255, 255, 255, 255, 255],
         // -9223372036854775808
         vec![0, 0, 0, 0, 0, 0, 0, 128],
     ];
@@ -69,6 +59,12 @@ fn kani_concrete_playback_c01_p_check_offset_steer_contract_16126345006959093442
 }
 
 /* native run output:
-panicked at library/kani/src/concrete_playback.rs:66:5:
-assertion `left == right` failed: Expected 1 bytes in the following det vals vec
+error: unexpected argument '--no-assertion-reach-checks' found
+
+  tip: to pass '--no-assertion-reach-checks' as a value, use '-- --no-assertion-reach-checks'
+
+Usage: cargo-kani playback --unstable <UNSTABLE_FEATURE> [-- [TEST_ARGS]...]
+
+For more information, try '--help'.
+
 */
